@@ -160,6 +160,10 @@ pub fn compare_outcome(rep: &mut Report, ctx: &J, entry: &str, exp: &J, got: &J,
 		if let Some(gcm) = got.get("cm") {
 			if &exp["cm"] != gcm {
 				rep.mismatch(if strict { "C05.codemap" } else { "C12.codemap" }, detail("code map differs"));
+				if !strict {
+					// C05 speaks about every successful parse, whatever the options
+					rep.mismatch("C05.codemap", detail("code map differs (lenient options)"));
+				}
 			}
 		}
 	} else if strict {
@@ -314,6 +318,19 @@ pub fn replay_parse(rep: &mut Report, rec: &J) {
 	}
 	if let Some(tok) = rec.get("tok") {
 		check_typed_tokens(rep, &ctx, &s, o, tok);
+	}
+	// C03, iterators that announce an enormous length: when the outcome is decided at a character inside the
+	// input, the same error must come back from an iterator whose size_hint lower bound is astronomically large
+	// (the text followed by usize::MAX/4 spaces); nothing may be sized by the announced length
+	if exp["ok"].as_bool() == Some(false) && exp["err"]["kind"] == "unexpected" && exp["err"]["ch"].as_i64() != Some(-1) {
+		let huge = guarded(|| Value::parse_utf8_with(s.chars().chain(std::iter::repeat(' ').take(usize::MAX / 4)).map(Ok::<char, Infallible>), o));
+		rep.count("parse_calls");
+		let got = project_result(huge);
+		if got.get("panic").is_some() {
+			rep.mismatch("C03.panic", json!({"what": "parser panicked on an iterator announcing an enormous length (size_hint)", "input": ctx, "observed": got}));
+		} else if got != first {
+			rep.mismatch("C03.outcome", json!({"what": "outcome changes when the input iterator announces an enormous length", "input": ctx, "observed": got, "parse_str_with": first}));
+		}
 	}
 	if exp["ok"].as_bool() == Some(true) {
 		rep.count("accepted");
